@@ -829,57 +829,95 @@ def rule_params(facts, rep):
     st = facts.item(cp.CRATE, "anstyle_parse::params::Params", "Struct")
     priv = all("Restricted" in f["vis"] for f in st["variants"][0]["fields"])
     rep.check(priv, "params", st["path"], "fields-private", "", f"{st['file']}:{st['ln']}")
-    for meth, want_sub in (("push", ("assign", 0)), ("extend", ("assignop", 1))):
+    import abseval
+    import poly
+    L, S, I = ("sym", "len"), ("sym", "cur"), ("sym", "item")
+
+    def same(t, want):
+        try:
+            return poly.of_term(t) == poly.of_term(want)
+        except Unrecognised:
+            return False
+    for meth, want_cur in (("push", ("int", 0)), ("extend", ("bin", "Add", S, ("int", 1)))):
         b = facts.body(cp.CRATE, f"anstyle_parse::params::Params::{meth}")
         rep.fn(b["path"])
-        s = [hir.simp(x) for x in hir.stmts_of(b["hir"])]
-        ok = len(s) == 4
-        d = ""
-        if ok:
-            # subparams[len - current_subparams as usize] = current_subparams + 1
-            l0 = hir.simp(s[0]["l"]) if s[0].get("k") == "assign" else {}
-            ok0 = l0.get("k") == "index" and self_field(l0["e"], "subparams")
-            if ok0:
-                i = hir.simp(l0["i"])
-                ok0 = (i.get("k") == "bin" and i["op"] == "Sub" and self_field(i["l"], "len")
-                       and hir.simp(i["r"]).get("k") == "cast" and self_field(hir.simp(i["r"])["e"], "current_subparams"))
-                r = hir.simp(s[0]["r"])
-                ok0 = ok0 and r.get("k") == "bin" and r["op"] == "Add" and self_field(r["l"], "current_subparams") and hir.lit_val(r["r"]) == 1
-            l1 = hir.simp(s[1]["l"]) if s[1].get("k") == "assign" else {}
-            ok1 = (l1.get("k") == "index" and self_field(l1["e"], "params") and self_field(l1["i"], "len")
-                   and hir.is_local(s[1]["r"], "item"))
-            kind, v = want_sub
-            ok2 = s[2].get("k") == kind and self_field(s[2]["l"], "current_subparams") and hir.lit_val(s[2]["r"]) == v and \
-                (kind == "assign" or s[2].get("op") == "AddAssign")
-            ok3 = s[3].get("k") == "assignop" and s[3]["op"] == "AddAssign" and self_field(s[3]["l"], "len") and hir.lit_val(s[3]["r"]) == 1
-            ok = ok0 and ok1 and ok2 and ok3
-            d = f"group-head={ok0} store={ok1} subparams={ok2} len+1={ok3}"
+        stores = []
+        ev = abseval.Evaluator(facts, cp.CRATE, {
+            "store:self.subparams": lambda a: stores.append(("subparams", a[0], a[1])),
+            "store:self.params": lambda a: stores.append(("params", a[0], a[1])),
+            "AddAssign": lambda a: ("bin", "Add", a[0], a[1]),
+        })
+        env = abseval.Env()
+        env.update({"self.len": L, "self.current_subparams": S, b["params"][1].get("name", "item"): I})
+        d, ok = "", False
+        try:
+            try:
+                ev.ev(b["hir"], env)
+            except abseval.Return:
+                pass
+            ok0 = [x for x in stores if x[0] == "subparams"]
+            ok1 = [x for x in stores if x[0] == "params"]
+            h = len(ok0) == 1 and same(ok0[0][1], ("bin", "Sub", L, S)) and same(ok0[0][2], ("bin", "Add", S, ("int", 1)))
+            st = len(ok1) == 1 and same(ok1[0][1], L) and ok1[0][2] == I
+            cur = same(env["self.current_subparams"], want_cur)
+            ln = same(env["self.len"], ("bin", "Add", L, ("int", 1)))
+            ok = h and st and cur and ln
+            d = f"group-head={h} store={st} subparams={cur} len+1={ln}"
+        except Unrecognised as u:
+            d = f"not evaluable: {u}"
         rep.check(ok, "params", b["path"], "shape",
-                  f"{meth}: record group size at the group head, store item at len, "
-                  f"{'close' if meth == 'push' else 'continue'} the group, len += 1 ({d})", loc(b))
+                  f"{meth}: with len=L, current_subparams=S on entry: subparams[L-S] = S+1, params[L] = item, current_subparams = "
+                  f"{'0' if meth == 'push' else 'S+1'}, len = L+1 — decided by abstract evaluation, offsets compared as polynomials ({d})", loc(b))
     # iterator: yields params[index..index+subparams[index]] and advances by that
     b = facts.body(cp.CRATE, "<anstyle_parse::params::ParamsIter<'a> as core::iter::traits::iterator::Iterator>::next")
     rep.fn(b["path"])
-    s = hir.stmts_of(b["hir"])
-    ok_guard = False
-    s0 = hir.simp(s[0])
-    if s0.get("k") == "if":
-        c = hir.simp(s0["c"])
-        ok_guard = (c.get("k") == "bin" and c["op"] == "Ge" and self_field(c["l"], "index") and hir.diverges(s0["t"]))
-    rep.check(ok_guard, "params", b["path"], "end-guard", "returns None when index >= len", loc(b))
-    idx = [n for n in hir.walk(b["hir"]) if n.get("k") == "index"]
-    rng = [n for n in idx if hir.simp(n["i"]).get("k") == "struct"]
-    ok_rng = False
-    if len(rng) == 1:
-        r = hir.simp(rng[0]["i"])
-        f = {x["name"]: x["e"] for x in r["fields"]}
-        end = hir.simp(f.get("end", {}))
-        ok_rng = (hir.last_seg(r["path"].get("path")) == "Range" and self_field(f.get("start"), "index")
-                  and end.get("k") == "bin" and end["op"] == "Add" and self_field(end["l"], "index"))
-    rep.check(ok_rng, "params", b["path"], "slice-is-group", "yields params[index .. index + num_subparams]", loc(b))
-    adv = [n for n in hir.walk(b["hir"]) if n.get("k") == "assignop" and self_field(n["l"], "index")]
-    rep.check(len(adv) == 1 and adv[0]["op"] == "AddAssign" and "num_subparams" in str(adv[0]["r"]), "params", b["path"], "advance-by-group",
-              "index += num_subparams", loc(b))
+    X, N, K = ("sym", "index"), ("sym", "n"), ("sym", "k")
+    cases = []
+
+    def run_next(choices):
+        loads = []
+
+        def load_sub(a):
+            loads.append(a[0])
+            return K
+        ev = abseval.Evaluator(facts, cp.CRATE, {
+            "anstyle_parse::params::Params::len": lambda a: N,
+            "ord": lambda a: ("bool", ev.oracle(("ord",) + tuple(a))),
+            "load:self.params.subparams": load_sub,
+            "load:self.params.params": lambda a: ("slice", a[0]),
+            "AddAssign": lambda a: ("bin", "Add", a[0], a[1]),
+        })
+        ev.choices = choices
+        env = abseval.Env()
+        env.update({"self.index": X, "self.params": ("sym", "params")})
+        try:
+            out = ev.ev(b["hir"], env)
+        except abseval.Return as r:
+            out = r.v
+        return out, env["self.index"], loads
+    try:
+        for choices, res in abseval.explore(run_next):
+            cases.append((choices, res))
+    except Unrecognised as u:
+        cases = [("not evaluable", str(u))]
+    ok_guard = ok_rng = ok_adv = False
+    if len(cases) == 2 and all(isinstance(c[0], dict) and len(c[0]) == 1 for c in cases):
+        for choices, (out, idx, loads) in cases:
+            (key, taken), = choices.items()
+            op, l, r = key[1], key[2], key[3]
+            # normalise the comparison to "index >= n"
+            at_end = {("Ge", X, N): taken, ("Lt", X, N): not taken, ("Le", N, X): taken, ("Gt", N, X): not taken}.get((op, l, r))
+            if at_end is True:
+                ok_guard = out == ("none",) and idx == X
+            elif at_end is False:
+                end = ("bin", "Add", X, K)
+                ok_rng = (out[0] == "some" and out[1][0] == "slice" and out[1][1][0] == "rec" and loads and all(same(x, X) for x in loads)
+                          and same(out[1][1][1].get("start"), X) and same(out[1][1][1].get("end"), end))
+                ok_adv = same(idx, end)
+    d = "" if len(cases) == 2 else f"{cases}"[:200]
+    rep.check(ok_guard, "params", b["path"], "end-guard", "returns None (index unchanged) when index >= len " + d, loc(b))
+    rep.check(ok_rng, "params", b["path"], "slice-is-group", "yields params[index .. index + subparams[index]] (abstract evaluation; bounds as polynomials)", loc(b))
+    rep.check(ok_adv, "params", b["path"], "advance-by-group", "index becomes index + subparams[index]", loc(b))
     rep.check(True, "params", "anstyle_parse::params", "checked", "")
 
 
